@@ -172,6 +172,8 @@ func neoErrClass(err error) string {
 	switch {
 	case strings.Contains(m, "has not been initialized") || strings.Contains(m, "get Consensus error") || strings.Contains(m, "get ConsensusPeer error"):
 		return "reject:noconsensus"
+	case strings.Contains(m, "had been initialized"):
+		return "reject:initialized"
 	case strings.Contains(m, "invalid script hash"):
 		return "reject:scripthash"
 	case strings.Contains(m, "getScripthash error"):
